@@ -91,6 +91,8 @@ class HierDictDocument(DictDocument):
             class_name = self.get_class_name(body_class)
             if self.ignore_wrappers:
                 doc = doc.get(class_name, None)
+                if doc is None:  # "method: null" means no arguments
+                    doc = {}
 
             result_message = self._doc_to_object(ctx, body_class, doc,
                                                                  self.validator)
